@@ -82,6 +82,9 @@ struct ProcInfo {
 // aborted). All remaining fibers are abandoned and all kernel state reset.
 RunStats run(std::uint64_t seed, const Knobs& knobs, const std::function<void()>& driver);
 
+// abandon the current run from any fiber (stacks are dropped, nothing is unwound): used when the
+// driver cannot continue safely. stats.fatal is set to `why`.
+[[noreturn]] void fail_run(const std::string& why);
 bool in_sim();                 // true while inside run() on a fiber
 Knobs& knobs();                // current run's knobs (mutable by the driver)
 Rng& rng();                    // schedule/network PRNG of the run
